@@ -10,7 +10,7 @@ US = [F(1), F(3, 4), F(3, 2)]
 CLAUSES = {
     "C03": ["margin", "pool_mean", "B", "reduction", "exc:make_assertion:*", "exc:set_margin_from_cvrs:*",
             "exc:set_tally_pool_means:*", "exc:overstatement_assorter:*", "exc:add_pool_contests:*"],
-    "C06": ["data", "bound", "installed", "installed:*", "range", "exc:mvrs_to_data:*", "exc:set_p_values:*", "exc:make_assertion:*"],
+    "C06": ["data", "bound", "installed", "installed:*", "range", "exc:mvrs_to_data:*", "exc:set_p_values:*", "exc:make_assertion:*", "exc:consistent_sampling:*"],
     "C08": ["worst", "exc:overstatement_assorter:*"],
 }
 MC_INV = {"C03": ["CvrLemma", "Reduction", "PaddingSound"], "C06": ["DataInBound"], "C08": ["PhantomWorstCase"]}
